@@ -165,8 +165,8 @@ def classify_difference(ref, ref2, s1, s2, a, b, name_map):
                 frozen_differs = True
     if set_order and not frozen_differs:
         return 'set-repr-hashseed'
-    if frozen_differs and not set_order:
-        return 'object-dict-arg-order'
+    if frozen_differs:
+        return 'object-dict-arg-order'     # (possibly together with the set-order finding: both are listed, the scheme is followed exactly)
     return None
 
 
